@@ -154,6 +154,12 @@ def scenarios(ctx):
                        jits=(0.75, 0.0),
                        budgets=dict(sub=1 if q else 2, unsub=1, ack=1, tick=4 if q else 7, jit=1 if q else 2, lose=1, rebuild=1, connect=1, connack=1),
                        reconnects=[(False, 0, v)]))
+    for v in (3, 4):
+        out.append(Std('pub-v%d-heldback' % v, profile='pub', closing=False,
+                       init=(('connect', 0, False, 0, v), ('connack', 0, 0, False)), connects=[(False, 0, v)],
+                       reconnects=[(False, 0, v)], pub_qos=(1, 2), windows=(1, 2, 3),
+                       budgets=dict(pub=3, ack=1 if q else 2, tick=2 if q else 3, setwin=1 if q else 2, lose=0 if q else 1,
+                                    rebuild=0 if q else 1, connect=0 if q else 1, connack=0 if q else 1)))
     return out
 
 
